@@ -366,6 +366,9 @@ func runProtocol(kc *kernelCtx, blocks []*Block, only string, want map[string]bo
 	if on("C09") || on("C18") {
 		pc.p1Helpers(only)
 	}
+	if on("C18") {
+		pc.p8Twins(only)
+	}
 	if on("C08") || on("C05") || on("C02") {
 		pc.p7NoTryLock(only)
 	}
